@@ -92,6 +92,14 @@ def parse_errors(stderr, gen, fname):
             reg = _region_at(gen, ln)
             if reg and reg[0] == 'extract':
                 gen.setdefault('compile_error_fns', set()).add(reg[1])
+                mm = re.search(r'cannot find function `([A-Za-z_0-9]+)` in this scope', head)
+                if mm:
+                    src = None
+                    for it in gen.get('items', []):
+                        if it.get('item', '').split()[-1].split('::')[-1] == reg[1].split('::')[-1]:
+                            src = it.get('file')
+                    if src:
+                        gen.setdefault('missing_fns', set()).add((mm.group(1), src))
             und.append('verifier/compile error: ' + head + (' @gen:%d: %s' % (ln, lines[ln - 1].strip() if 0 < ln <= len(lines) else '')))
             continue
         reg = _region_at(gen, ln)
@@ -111,11 +119,11 @@ def parse_errors(stderr, gen, fname):
     return out, und
 
 
-def run_unit(unit, mode=None, canary=None, rlimit=30, threads=8, lenient=False, drop_hints_for=()):
+def run_unit(unit, mode=None, canary=None, rlimit=30, threads=8, lenient=False, drop_hints_for=(), extra_fns=()):
     res = UnitResult(unit)
     t0 = time.time()
     try:
-        gen = unitgen.generate(unit, mode=mode, canary=canary, lenient=lenient, drop_hints_for=drop_hints_for)
+        gen = unitgen.generate(unit, mode=mode, canary=canary, lenient=lenient, drop_hints_for=drop_hints_for, extra_fns=extra_fns)
     except (LostAnchor, unitgen.TemplateError) as e:
         res.status = 'undecided'
         res.reason = 'lost anchor: %s' % e
@@ -124,7 +132,7 @@ def run_unit(unit, mode=None, canary=None, rlimit=30, threads=8, lenient=False, 
     gen['unit'] = unit
     res.gen = gen
     os.makedirs(BUILD, exist_ok=True)
-    suffix = ('__' + mode if mode else '') + ('__canary_' + canary if canary else '') + ('__lenient' if lenient is True else ('__nohints' if lenient else '')) + ('__drop' if drop_hints_for else '')
+    suffix = ('__' + mode if mode else '') + ('__canary_' + canary if canary else '') + ('__lenient' if lenient is True else ('__nohints' if lenient else '')) + ('__drop' if drop_hints_for else '') + ('__extra' if extra_fns else '')
     path = os.path.join(BUILD, unit + suffix + '.rs')
     with open(path, 'w') as f:
         f.write(gen['text'])
